@@ -6,12 +6,18 @@ Oracles on the real code (none uses the implementation half of the Lean model):
     a false py:if removes / a true one is transparent; only the first matching py:when (else
     py:otherwise) is rendered; scoping: what follows a template sees exactly the outer variables;
   * the real output against the Lean documentation semantics `Genshi.Tmpl.docRender` (gdrv).
+  * character level (text templates): a printed well-formed token list is parsed to itself
+    (`scanprint`, `scanprint-old`), escaped text reaches the output verbatim (`scanverb`).
 Correspondence: the real output and the real prepared stream against the implementation model
-`Genshi.Tmpl.implRender` / `Genshi.Tmpl.compile`.
+`Genshi.Tmpl.implRender` / `Genshi.Tmpl.compile`; the Lean scanners against the compiled regular
+expressions' own `finditer` (`text-scan-tokens`) and against the event stream of `_parse` on raw,
+also malformed, text (`text-scan-parse`); the end-to-end model from source text against the model from
+the AST (`raw-text-compile`) and against the real render (`raw-text-render`).
 """
 import json, random, warnings
 from harness import proto
 from harness import gen_templates as G
+from harness import gen_textraw as R
 from harness.framework import Result, pmap
 from harness.proto import Atom
 
@@ -22,10 +28,14 @@ TRUSTED = [
     '_extract_directives (the flat depth/dirmap pass), text.py token loop of NewTextTemplate/OldTextTemplate._parse '
     '(hand-written Lean models tied by differential correspondence: rendered events one by one incl. error class, '
     'and the prepared stream Template.stream)',
-    'not modelled, only exercised: expat and MarkupTemplate._parse / interpolate (template source -> parsed stream), the '
-    'regular-expression scanners of the text templates (source -> tokens), genshi.template.eval (expressions are '
-    're-implemented for a mini language: names, None/bool/int/str/list/dict literals, ==, not, len, indexing), '
-    'Attrs.__or__ (C18 model), the serializer',
+    'modelled, not verified: the regular expressions of NewTextTemplate (default delimiters) / OldTextTemplate as total list '
+    'scanners (Model/TmplScan.lean; the shape of the compiled patterns is checked and their flags are read by '
+    'harness/extract_textscan.py), _escape_re.sub, the line splitting of the old syntax, interpolate over the C03 model of lex, '
+    'a reader of the mini language and of the directive arguments (Model/TmplRaw.lean) -- tied by the streams text-scan-tokens, '
+    'text-scan-parse, raw-text-compile, raw-text-render; the Python syntax of ${...} / {% python %} sources is judged by CPython',
+    'not modelled, only exercised: expat and MarkupTemplate._parse (markup source -> parsed stream), genshi.template.eval '
+    '(expressions are re-implemented for a mini language: names, None/bool/int/str/list/dict literals, ==, not, len, indexing), '
+    'Attrs.__or__ (C18 model), the serializer; custom delimiters of NewTextTemplate; line numbers / offsets of the events',
     'outside the model: py:match, <?python?>, xi:include, i18n directives, py:def defaults/*args/**kwargs, tuple '
     'unpacking in py:for / py:with, interpolated attribute values, py: attributes on directive elements (known finding)',
     'the documentation semantics `doc` is a formalisation of doc/xml-templates.rst / text-templates.rst by hand; where '
@@ -39,6 +49,8 @@ ASSUMPTIONS = [
     'parentheses: C03/C13 defect, outside this property); names avoid Python builtins',
     'directive elements (<py:for> ...) carry no further py: attributes (known finding C04-direlem-attrs)',
     'each macro name is defined at most once per template and called only after its definition (no recursion)',
+    'scanner oracles: token lists from the grammar of harness/gen_textraw.py / gen_old_toks (texts without $, balanced blocks; a text '
+    'in front of a delimiter does not end in a backslash: such a template cannot be written)',
     'two Undefined values are never compared with == (object identity of Undefined is not in the value universe: '
     'the model answers unmodelled and the case is counted)',
 ]
@@ -271,6 +283,8 @@ def oracle_case(case, doc=None):
         d.update(kw)
         return d
 
+    if case['check'] in ('scanprint', 'scanprint-old', 'scanverb'):
+        return scan_oracle(case)
     if case['check'] == 'raw':
         # a template given by its source (shapes the AST cannot express) with the documented output
         got = real_raw(case['lang'], [['raw', case['source']]], case['data'], lookup_of(case))
@@ -696,6 +710,223 @@ def applicable_checks(case):
     return out
 
 
+# --------------------------------------------------------------------------
+# text templates end to end from their source text (Model/TmplRaw.lean)
+
+def raw_model(cases):
+    """-> list of (prepared stream from the source | None, rendered | None)"""
+    if not cases:
+        return []
+    lines = []
+    for c in cases:
+        src = G.source(c['lang'], c['nodes'])
+        strict = lookup_of(c) == 'strict'
+        lines.append(proto.line(Atom('C04'), Atom('rawcompile'), Atom(c['lang']), strict, src))
+        lines.append(proto.line(Atom('C04'), Atom('rawrender'), Atom(c['lang']), strict, FUEL, src, G.data_w(c['data'])))
+    ans = proto.run_lines(lines)
+    out = []
+    for i in range(len(cases)):
+        a, b = ans[2 * i], ans[2 * i + 1]
+        v = proto.dec(a)
+        if str(v[0]) == 'ok':
+            comp = ['ok', model_stream(v[1] if len(v) > 1 else [])]
+        else:
+            comp = None if str(v[1]) == 'unmodelled' else ['err', str(v[1])]
+        vb = proto.dec(b)
+        if str(vb[0]) == 'err' and str(vb[1]) in ('badsyntax', 'baddirective'):
+            rend = ['err', 'syntax']
+        else:
+            rend = model_out(b)
+        out.append((comp, rend))
+    return out
+
+
+# --------------------------------------------------------------------------
+# character level: the scanners of the text templates (Model/TmplScan.lean)
+
+def escape_old(s):
+    """old syntax: a backslash in front of every '#' (OldTextTemplate turns '\\#' into '#')"""
+    return s.replace('#', '\\#')
+
+
+def print_old(toks):
+    out = []
+    for t in toks:
+        if t[0] == 'T':
+            out.append(escape_old(t[1]))
+        elif t[0] == 'D':
+            out.append('%s#%s%s\n' % (t[3], t[1], ' ' + t[2] if t[2] else ''))
+        else:
+            out.append('##%s\n' % t[1])
+    return ''.join(out)
+
+
+def gen_old_toks(rng):
+    """old syntax: texts end a line, a directive is a line `[blanks]#cmd value`, a comment a line `##…`"""
+    out = []
+    TEXT = ['a\n', 'b c\n', '#if x\n', '  #end\n', '## k\n', 'x # y\n', '\\\n', '\n', '\u00e9\n', '#\n', '\\#z\n', '#include q\n']
+    def body(depth, n):
+        for _ in range(n):
+            r = rng.random()
+            if r < 0.45:
+                if not out or out[-1][0] != 'T':
+                    out.append(['T', ''.join(rng.choice(TEXT) for _ in range(rng.randint(1, 3)))])
+            elif r < 0.75 and depth < 3:
+                cmd = rng.choice(R.CT_OPEN)
+                out.append(['D', cmd, rng.choice(['x', 'x == 1', 'i in xs', 'y=1', 'f(a)', "'#'", '']), rng.choice(['', '', ' ', '\t '])])
+                body(depth + 1, rng.randint(0, 3))
+                out.append(['D', 'end', rng.choice(['', '', cmd]), rng.choice(['', ' '])])
+            else:
+                out.append(['C', rng.choice([' c', 'c', '', '#', ' $x ${', 'if x', ' #end'])])
+    body(0, rng.randint(1, 6))
+    return out
+
+
+def expected_old(toks):
+    conv = []
+    for t in toks:
+        if t[0] == 'D':
+            conv.append(['D', t[1], t[2] if t[2] else None])
+        else:
+            conv.append(t)
+    return R.expected_stream(conv)
+
+
+def _balanced(toks):
+    depth = 0
+    for t in toks:
+        if t[0] == 'D':
+            depth += -1 if t[1] == 'end' else 1
+            if depth < 0:
+                return False
+    return depth == 0
+
+
+def valid_scan_case(case):
+    """is the case one of the grammar of the scanner oracles (shrinking must not leave it)"""
+    import re
+    check = case.get('check')
+    ok_str = lambda x: isinstance(x, str)
+    if check == 'scanverb':
+        return case.get('lang') in ('newtext', 'oldtext') and ok_str(case.get('text')) and case['text'] != '' and '$' not in case['text']
+    toks = case.get('tokens')
+    if not isinstance(toks, list) or not toks:
+        return False
+    new = check == 'scanprint'
+    prev = None
+    for i, t in enumerate(toks):
+        if not isinstance(t, list) or not t or t[0] not in ('T', 'D', 'C') or not all(ok_str(x) for x in t):
+            return False
+        if t[0] == 'T':
+            if len(t) != 2 or not t[1] or '$' in t[1] or prev == 'T':
+                return False
+            if new and t[1].endswith('\\') and i + 1 < len(toks):
+                return False
+            if not new and not t[1].endswith('\n'):
+                return False
+        elif t[0] == 'D':
+            if len(t) != (3 if new else 4) or t[1] not in R.CT_OPEN + ['end']:
+                return False
+            v = t[2]
+            if v != v.strip() or re.search(r'^\s|\s$', v) or '%}' in v or (not new and ('\n' in v or '\r' in v)):
+                return False
+            if not new and t[3].strip(' \t'):
+                return False
+        else:
+            if len(t) != 2 or (new and '#}' in t[1]) or (not new and ('\n' in t[1] or '\r' in t[1])):
+                return False
+        prev = t[0]
+    return _balanced(toks)
+
+
+def _rstrip_vals(evs):
+    return [['SUB', e[1], e[2].rstrip() if e[2] is not None else None, _rstrip_vals(e[3])] if e[0] == 'SUB' else e for e in evs]
+
+
+def scan_oracle(case):
+    """the documented constructs mean themselves, on the real code (no model involved: the source is
+    the printed form of the tokens, the expectation their nesting)"""
+    def bad(what, expected, observed):
+        return {'case': case, 'what': what, 'expected': expected, 'observed': observed}
+    check = case['check']
+    if not valid_scan_case(case):
+        return None
+    if check == 'scanprint':
+        toks = case['tokens']
+        src = R.print_new([toks])[0]
+        if src != case.get('source', src):
+            return None
+        got = R.real_parse('newtext', src)
+        exp = ['ok', R.expected_stream(toks)]
+        if got != exp:
+            return bad('a printed well-formed token list (documented escapes) is parsed to itself', exp, got)
+    elif check == 'scanprint-old':
+        toks = case['tokens']
+        got = R.real_parse('oldtext', print_old(toks))
+        if got[0] == 'ok':
+            # the line break the old syntax leaves at the end of a directive value is not documented
+            got = ['ok', _rstrip_vals(got[1])]
+        exp = ['ok', expected_old(toks)]
+        if got != exp:
+            return bad('old syntax: text with \\# escapes, #directive lines and ## comment lines are parsed to themselves', exp, got)
+    elif check == 'scanverb':
+        text, lang = case['text'], case['lang']
+        if '$' in text or not text:
+            return None
+        src = R.print_new([[['T', text]]])[0] if lang == 'newtext' else escape_old(text)
+        got = R.render(lang, src)
+        if got != ['ok', text]:
+            return bad('text outside directives reaches the output verbatim (modulo the documented escapes)', ['ok', text], got)
+    return None
+
+
+VERB_CH = ['a', ' ', '\n', '\\', '{', '%', '#', '}', '{%', '{#', '%}', '#}', '\r\n', '\u00e9', 'if', '\\\n', '.', '\t', '##', '\n#', '\n  #end', '\\#']
+
+
+def scan_part(res, rng, n):
+    """correspondence of the character-level scanners + their oracles on the real code"""
+    for lang in ('newtext', 'oldtext'):
+        srcs = [R.gen_raw(rng, lang) for _ in range(n)]
+        for src, (mt, mp) in zip(srcs, R.model_answers(lang, srcs)):
+            rt = R.real_tokens(lang, src)
+            rp = R.real_parse(lang, src)
+            res.evaluations += 1
+            res.streams['text-scan-tokens'] = res.streams.get('text-scan-tokens', 0) + 1
+            res.count('scan:%s:%s' % (lang, rp[0] if rp[0] == 'ok' else rp[1]))
+            for t in rt:
+                res.count('scan-tok:%s:%s' % (lang, t[0]))
+            if mt != rt:
+                res.disagreements.append({'stream': 'text-scan-tokens', 'case': {'lang': lang, 'source': src},
+                                          'model': repr(mt)[:600], 'real': repr(rt)[:600], 'source': src})
+            if mp is None:
+                res.count('scan:unmodelled')
+                continue
+            res.streams['text-scan-parse'] = res.streams.get('text-scan-parse', 0) + 1
+            if mp != rp:
+                res.disagreements.append({'stream': 'text-scan-parse', 'case': {'lang': lang, 'source': src},
+                                          'model': repr(mp)[:600], 'real': repr(rp)[:600], 'source': src})
+            elif rp[0] == 'ok' and sum(1 for t in rt if t[0] != 'T') >= 2 and len(src) < 200:
+                res.nontrivial.add(json.dumps(['scan', lang, src]))
+    toks = [R.gen_ctoks(rng) for _ in range(n)]
+    for t, src in zip(toks, R.print_new(toks)):
+        res.count('check:scanprint')
+        f = scan_oracle({'check': 'scanprint', 'lang': 'newtext', 'tokens': t, 'source': src})
+        if f:
+            res.failures.append(f)
+    for _ in range(n):
+        res.count('check:scanprint-old')
+        f = scan_oracle({'check': 'scanprint-old', 'lang': 'oldtext', 'tokens': gen_old_toks(rng)})
+        if f:
+            res.failures.append(f)
+    for _ in range(n):
+        lang = rng.choice(['newtext', 'oldtext'])
+        text = ''.join(rng.choice(VERB_CH) for _ in range(rng.randint(1, 8)))
+        res.count('check:scanverb')
+        f = scan_oracle({'check': 'scanverb', 'lang': lang, 'text': text})
+        if f:
+            res.failures.append(f)
+
+
 def shard(arg):
     seed, idx, n, use_model = arg
     warnings.simplefilter('ignore')
@@ -760,6 +991,26 @@ def shard(arg):
                     if impl_ex != real_ex:
                         res.disagreements.append({'stream': 'impl-exact-events', 'case': c, 'model': repr(impl_ex)[:600],
                                                   'real': repr(real_ex)[:600], 'source': G.source(c['lang'], c['nodes'])})
+    if use_model:
+        tcases = [(c, pm) for c, pm in zip(cases, preps) if c['lang'] != 'markup']
+        for (c, pm), (comp, rend) in zip(tcases, raw_model([c for c, _ in tcases])):
+            if comp is None or rend is None:
+                res.count('raw-text:unmodelled')
+                continue
+            # the reader of the source text against the AST the source was printed from (model = model)
+            res.streams['raw-text-compile'] = res.streams.get('raw-text-compile', 0) + 1
+            if pm is not None and comp != pm:
+                res.disagreements.append({'stream': 'raw-text-compile', 'case': c, 'model': repr(comp)[:600],
+                                          'real': repr(pm)[:600], 'source': G.source(c['lang'], c['nodes'])})
+            base = G.render_real(c['lang'], c['nodes'], c['data'], lookup=lookup_of(c))
+            if base[0] == 'invalid':
+                continue
+            b2 = base if base[0] != 'err' else ['err', ERRMAP.get(base[1], base[1])]
+            res.streams['raw-text-render'] = res.streams.get('raw-text-render', 0) + 1
+            if rend != b2:
+                res.disagreements.append({'stream': 'raw-text-render', 'case': c, 'model': repr(rend)[:600],
+                                          'real': repr(b2)[:600], 'source': G.source(c['lang'], c['nodes'])})
+        scan_part(res, random.Random('%s/%s/C04-scan' % (seed, idx)), min(600, max(20, (3 * n) // 8)))
     res.samples = [{'lang': c['lang'], 'source': G.source(c['lang'], c['nodes']), 'data': c['data']} for c in cases[:2]]
     return res
 
@@ -781,6 +1032,8 @@ def run(ctx):
 def search(ctx, res, broken):
     found = []
     for d in res.disagreements[:100]:
+        if 'nodes' not in d['case']:
+            continue
         for check in applicable_checks(d['case']):
             try:
                 f = oracle_case(dict(d['case'], check=check))
